@@ -143,12 +143,12 @@ const (
 	cvxTLSHd         = "X-Tls"
 	cvxClientIPHdOdd = "X-Client-IP" // ... the way people write it
 	cvxTLSHdOdd      = "X-TLS"
-	cvxTLSVal     = "true"
-	cvxSTSMaxAge  = 31536000
-	cvxSTSValue   = "max-age=31536000; includeSubdomains"
-	cvxNamedHost  = "name.example"
-	cvxPageHTML   = "<html><body>no route here</body></html>\n"
-	cvxReqPort    = "8080"
+	cvxTLSVal        = "true"
+	cvxSTSMaxAge     = 31536000
+	cvxSTSValue      = "max-age=31536000; includeSubdomains"
+	cvxNamedHost     = "name.example"
+	cvxPageHTML      = "<html><body>no route here</body></html>\n"
+	cvxReqPort       = "8080"
 )
 
 var cvxManagedName = map[string]string{
@@ -162,7 +162,9 @@ func cvxJoin(toks []string) string { return strings.Join(toks, "") }
 
 // cvxOpt renders the text of a route option (strip=, prepend=, source path): plain text, the
 // token U+F6 stands for the letter o-umlaut.
-func cvxOpt(toks []string) string { return strings.ReplaceAll(strings.Join(toks, ""), "U+F6", "\u00f6") }
+func cvxOpt(toks []string) string {
+	return strings.ReplaceAll(strings.Join(toks, ""), "U+F6", "\u00f6")
+}
 
 func cvxPeerOf(cs *cvxCase) string {
 	if cs.C.Peer == "v6" {
@@ -197,7 +199,7 @@ func cvxForgedToken(cs *cvxCase, h, tok string) string {
 		return cvxPeerOf(cs)
 	case "sfxpeer": // an address whose text merely ends with the peer's
 		if cs.C.Peer == "v6" {
-			return "2001:db8:" + cvxPeer6
+			return "2001:db8" + cvxPeer6 // 2001:db8::1
 		}
 		return "2" + cvxPeer
 	case "peerpfx": // ... or starts with it
@@ -596,7 +598,7 @@ func cvxNewWorld() *cvxWorld {
 	w.upAddr = w.upstream.Listener.Addr().String()
 	w.client = &http.Client{
 		Transport: &http.Transport{
-			TLSClientConfig:     &tls.Config{InsecureSkipVerify: true},
+			TLSClientConfig:    &tls.Config{InsecureSkipVerify: true},
 			DisableCompression: true,
 			// how long a request with Expect: 100-continue waits for the interim answer before it
 			// sends its body anyway; nothing is decided by this
@@ -739,6 +741,9 @@ func (w *cvxWorld) front(k cvxCfgKey) *cvxFront {
 	defer w.fmu.Unlock()
 	if f := w.fronts[k]; f != nil {
 		return f
+	}
+	if k.v6 && w.noV6 {
+		return nil
 	}
 	cfg := config.Proxy{NoRouteStatus: k.nr}
 	if k.ip {
@@ -1036,6 +1041,31 @@ func cvxSplitList(vals []string) []string {
 	return out
 }
 
+// cvxSameAddr: does text denote the address addr?  (any textual form of the same IP address; a
+// bracketed host literal such as [::1] is not an address)
+func cvxSameAddr(text, addr string) bool {
+	a, b := net.ParseIP(text), net.ParseIP(addr)
+	return a != nil && b != nil && a.Equal(b)
+}
+
+// cvxSameValsTok compares received values with expected ones; where the expected token is the peer
+// the value must denote the peer's address, everything else must be equal byte for byte.
+func cvxSameValsTok(got, want, toks []string) bool {
+	if len(got) != len(want) {
+		return false
+	}
+	for i := range got {
+		if toks[i] == "peer" {
+			if !cvxSameAddr(got[i], want[i]) {
+				return false
+			}
+		} else if got[i] != want[i] {
+			return false
+		}
+	}
+	return true
+}
+
 // cvxCheckHdr judges the received values of one header against the expectation of the case.
 func cvxCheckHdr(cs *cvxCase, h string, exp cvxHdrExp, got []string) string {
 	want := make([]string, len(exp.Vals))
@@ -1044,12 +1074,20 @@ func cvxCheckHdr(cs *cvxCase, h string, exp cvxHdrExp, got []string) string {
 	}
 	switch exp.Mode {
 	case "eq":
-		if !cvxSameVals(got, want) {
+		if !cvxSameValsTok(got, want, exp.Vals) {
 			return fmt.Sprintf("got %q, want %q", got, want)
 		}
 	case "list":
-		if g := cvxSplitList(got); !cvxSameVals(g, want) {
+		if g := cvxSplitList(got); !cvxSameValsTok(g, want, exp.Vals) {
 			return fmt.Sprintf("got elements %q (from %q), want %q", g, got, want)
+		}
+	case "listdup":
+		// the client's list already ends with the peer: the peer must (still) be the last element and
+		// nothing of the client's list may be lost; whether it is listed once more is not judged
+		g := cvxSplitList(got)
+		n := len(want)
+		if !cvxSameValsTok(g, want, exp.Vals) && !(n > 1 && cvxSameValsTok(g, want[:n-1], exp.Vals[:n-1])) {
+			return fmt.Sprintf("got elements %q (from %q), want %q (the last one once or twice)", g, got, want)
 		}
 	case "prefix":
 		if len(got) != 1 || !strings.HasPrefix(got[0], want[0]) {
@@ -1068,7 +1106,13 @@ func cvxCheckHdr(cs *cvxCase, h string, exp cvxHdrExp, got []string) string {
 				}
 			}
 		}
-		if params["for"] != want[0] {
+		// RFC 7239 writes an IPv6 node as "[::1]" (quoted, bracketed); fabio writes the bare address:
+		// the syntax is not judged, the address is
+		node := strings.Trim(params["for"], `"`)
+		if strings.HasPrefix(node, "[") && strings.HasSuffix(node, "]") && strings.Contains(node, ":") {
+			node = node[1 : len(node)-1]
+		}
+		if !cvxSameAddr(node, want[0]) {
 			return fmt.Sprintf("got %q, want for=%s", got[0], want[0])
 		}
 		switch exp.Vals[1] {
@@ -1132,8 +1176,26 @@ func cvxHasPrefix(p, s []string) bool {
 	return true
 }
 
+// cvxHasPrefixDecoded: option text p is a prefix of the raw path s, however the client spelled it.
+func cvxHasPrefixDecoded(p, s []string) bool {
+	if len(p) > len(s) {
+		return false
+	}
+	dec := map[string]string{"%C3%B6": "U+F6", "%c3%b6": "U+F6", "%5E": "^", "%5e": "^"}
+	for i := range p {
+		t := s[i]
+		if d, ok := dec[t]; ok {
+			t = d
+		}
+		if p[i] != t {
+			return false
+		}
+	}
+	return true
+}
+
 func cvxRewriteClass(r *cvxRoute, path []string) string {
-	strip := len(r.Strip) > 0 && cvxHasPrefix(r.Strip, path)
+	strip := len(r.Strip) > 0 && cvxHasPrefixDecoded(r.Strip, path)
 	switch {
 	case strip && len(r.Prepend) > 0:
 		return "strip+prepend"
@@ -1209,7 +1271,7 @@ func (rn *cvxRunner) run(t *testing.T) {
 		return
 	}
 
-	var ran, nontrivial, distinct int64
+	var ran, nontrivial, distinct, skippedV6 int64
 	var dedup sync.Map
 	var quiet []int64 // ids of cases in which no upstream may be contacted
 	var quietMu sync.Mutex
@@ -1286,7 +1348,10 @@ func (rn *cvxRunner) run(t *testing.T) {
 			}
 			j := &cvxJob{cs: cs, id: n, raw: verifx.Hash(raw)}
 			// bring the proxies up before the parallel phase (see front())
-			w.front(cvxFrontKey(cs))
+			if w.front(cvxFrontKey(cs)) == nil {
+				skippedV6++ // this machine has no ::1 to listen on: counted, not judged
+				return nil
+			}
 			if rn.serial != nil {
 				if k := rn.serial(cs); k != "" {
 					serialGroups[k] = append(serialGroups[k], j)
@@ -1324,5 +1389,5 @@ func (rn *cvxRunner) run(t *testing.T) {
 	w.mu.Unlock()
 	verifx.Summary(map[string]any{"cases": total, "ran": ran, "distinct": distinct, "distinct_nontrivial": nontrivial,
 		"routes": w.nroutes, "errors": atomic.LoadInt64(&w.errs), "retried_exchanges": atomic.LoadInt64(&w.retries),
-		"samples": samples, "late_hits": late})
+		"samples": samples, "late_hits": late, "skipped_no_ipv6": skippedV6})
 }
